@@ -52,6 +52,9 @@ VerdictC05(q, multi) ==
   ELSE IF Rw(multi[4]) # five \o " " \o q.sep THEN "separator-without-fraction-not-left-as-word"
   ELSE IF Rw(multi[5]) # five \o " " \o q.sep \o " xyz" THEN "separator-before-ordinary-word-not-left-as-word"
   ELSE IF Rw(multi[6]) # five \o " " \o q.sep \o ", " \o five THEN "separator-before-punctuation-not-left-as-word"
+  \* a second separator word does not continue the fraction: the decimal that was said is T, whatever is made of the rest
+  ELSE IF Len(multi) >= 7 /\ ~(StartsWith(Rw(multi[7]), T) /\ (Len(Rw(multi[7])) = Len(T) \/ ~IsDigits(Ch(Rw(multi[7]), Len(T) + 1))))
+       THEN "digits-after-a-second-separator-read-into-the-fraction"
   ELSE ""
 \* C08
 RECURSIVE SplitBlank(_, _, _)
